@@ -329,9 +329,9 @@ static void famSpace(vf::Runner& R, const Fam& f) {
 // queries 0: d1(theta), 1: d1(phi), 2: d2(theta), 3: d2(phi); every sequence of 1, 2 and 3 queries on ONE object (no update in
 // between); each answer is compared with the enumeration reference and with a fresh object asked that query alone.
 static void derivOrderSpace(vf::Runner& R, bool th) {
-  Fam f; f.kind = "paths"; f.n = 2; f.L = 3; f.k = th ? 3 : 2; f.pmax = 0; f.nTheta = 2; f.allBp = true;
+  Fam f; f.kind = "paths"; f.n = 2; f.L = th ? 3 : 2; f.k = th ? 3 : 2; f.pmax = 0; f.nTheta = 2; f.allBp = true;
   uint64_t a, b, d; uint64_t nModels = famSize(f, a, b, d); const uint64_t nSeq = 4 + 16 + 64;
-  R.space("derivative-orders:n2:L3:emis" + str(f.k) + ":theta2:queries<=3", nModels * nSeq, [=](uint64_t idx, vf::Case& c) {
+  R.space("derivative-orders:n2:L" + str(f.L) + ":emis" + str(f.k) + ":theta2:queries<=3", nModels * nSeq, [=](uint64_t idx, vf::Case& c) {
     uint64_t is = idx % nSeq, im = idx / nSeq;
     std::vector<int> seq; if (is < 4) seq = {(int)is}; else if (is < 20) { is -= 4; seq = {(int)(is % 4), (int)(is / 4)}; } else { is -= 20; seq = {(int)(is % 4), (int)((is / 4) % 4), (int)(is / 16)}; }
     Model m = famModel(f, im); Model mq = m; mq.var = 1;
